@@ -13,6 +13,8 @@ import (
 	"strings"
 	"sync"
 	"time"
+	"verif/internal/hooks"
+	"verif/internal/sched"
 
 	"github.com/hashicorp/raft"
 	wal "github.com/hashicorp/raft-wal"
@@ -376,6 +378,57 @@ func c09Workload(c *evid.Ctx, seed int64) {
 			}
 			ops = append(ops, "delete-all")
 			l.DeleteRange(l.First, l.Last)
+		case x >= 96 && !real && !l.Empty():
+			// Close right after an append that sealed the tail, before the background rotation
+			// got the lock: the next Open recovers a sealed tail and completes the rotation
+			// itself, taking IndexStart from its recovery scan instead of from the writer
+			gate := sched.NewRotGate(w)
+			var logs []*raft.Log
+			var bt fmtspec.Batch
+			for j := 0; j < 2; j++ {
+				lg := gen.Entry(rng, l.Last+1+uint64(j), "s", seg/2+rng.Intn(seg/2))
+				logs = append(logs, lg)
+				bt.Entries = append(bt.Entries, encPayload(lg))
+			}
+			st0 := twinDisk.MetaSnapshot().State
+			trig0, _, _ := hooks.Rotations(w)
+			r := drv.ApplyNoWait(w, gen.Op{Kind: "append", Logs: logs})
+			if r.Err != nil {
+				gate.Close()
+				c.Violation("C09:append-error", r.Err.Error(), map[string]any{"seed": seed})
+				return
+			}
+			l.Append(logs, i, true)
+			var target *types.SegmentInfo
+			for k := range st0.Segments {
+				if st0.Segments[k].BaseIndex <= logs[0].Index {
+					target = &st0.Segments[k]
+				}
+			}
+			if target == nil {
+				gate.Close()
+				return
+			}
+			// rotate.triggered fires inside StoreLogs, so this is known when it returns
+			trig1, _, _ := hooks.Rotations(w)
+			pending := trig1 > trig0
+			bt.HasIndex = pending
+			recOf(*target).batches = append(recOf(*target).batches, bt)
+			w.Close()
+			gate.Close()
+			hooks.Forget(w)
+			w, err = drv.OpenSim(disk, drv.Cfg{SegSize: seg})
+			twin = w
+			if err != nil {
+				c.Violation("C09:reopen", "reopen after Close with a rotation pending: "+err.Error(), nil)
+				closed = true
+				return
+			}
+			if pending {
+				c.Count("closes_with_rotation_pending", 1)
+				c.Distinct("batch_shapes", "sealed-tail-recovered-at-open")
+			}
+			ops = append(ops, fmt.Sprintf("append %d..%d + close with rotation pending=%v + reopen", logs[0].Index, logs[1].Index, pending))
 		default:
 			drv.CloseWAL(w)
 			if real {
@@ -535,7 +588,7 @@ func c09Golden(c *evid.Ctx) {
 }
 
 func runC09(c *evid.Ctx) {
-	c.Rule("random workloads (appends of 1-4 entries with payload sizes over all 8 padding residues and entries larger than a segment, head/tail/all truncations incl. force-seals, base-index resets, reopens, and calls whose first file write fails with an injected error (not acknowledged; later batches must be framed as if it never happened); six segment sizes; 1 in 8 on the real filesystem with BoltDB read directly through bbolt); afterwards every segment file is decoded by an independent implementation of the README layout, its batches must equal the acknowledged batches (grouping and codec payloads), header == file name == metadata, sealed <=> index frame in the last batch, IndexStart == index payload offset, index offsets == entry frame offsets, and the independent encoder must reproduce the file byte-for-byte up to the last commit with zeros after it; plus 12 golden directories written by the pinned commit that must open with identical contents, accept an append and reopen; non-trivial = distinct (batch size, index frame, sealed) shapes and golden directories",
+	c.Rule("random workloads (appends of 1-4 entries with payload sizes over all 8 padding residues and entries larger than a segment, head/tail/all truncations incl. force-seals, base-index resets, reopens, Close right after a sealing append with the rotation still queued (the next Open completes it from its recovery scan), and calls whose first file write fails with an injected error (not acknowledged; later batches must be framed as if it never happened); six segment sizes; 1 in 8 on the real filesystem with BoltDB read directly through bbolt); afterwards every segment file is decoded by an independent implementation of the README layout, its batches must equal the acknowledged batches (grouping and codec payloads), header == file name == metadata, sealed <=> index frame in the last batch, IndexStart == index payload offset, index offsets == entry frame offsets, and the independent encoder must reproduce the file byte-for-byte up to the last commit with zeros after it; plus 12 golden directories written by the pinned commit that must open with identical contents, accept an append and reopen; non-trivial = distinct (batch size, index frame, sealed) shapes and golden directories",
 		"segment_files_checked", "batch_shapes")
 	c.Assume("README is read as: the first commit's CRC covers the file header too (bytes written since the file was created)", "the metadata bucket is named wal-meta (as in the property's anchors), the README text says wal-state")
 	n := 300
